@@ -30,6 +30,8 @@ independent owner-matching questions (harness "match").  Integer tokens only.
   madd kind valid <robj> k role*                 informer Add delivered in the order role* (0 = global handler, i = profile i)
   mupd kindOld kindNew valid <robj> <robj> k role*
   mdel kind <robj> k role*
+  mto role add kind valid <robj> | mto role upd kindOld kindNew valid <robj> <robj> | mto role del kind <robj>
+                                                 ONE listener (0 = global handler, i = plugin handler of profile i) processes the event
   mhadd <hpod> | mhupd <hpod> <hpod> | mhdel <hpod>      pod informer event, to every profile
   massume prof ru <pod>                          -> `err k`
       each followed by, for every profile i = 1..P:  `prof i` + the dump of its cache
@@ -306,6 +308,26 @@ def stepProfiles (ms : List Cache) (line : String) : Option (List Cache × List 
       | some o => ev (.del kind.toNat o) (l.drop 21)
       | none => bad
     | _ => bad
+  | "mto" :: role :: kindTok :: rest =>
+    let one (e : REv) : Option (List Cache × List String) :=
+      match role.toNat? with
+      | some ro => if ro > p then bad else let ms' := deliverTo ms e ro; some (ms', dumpProfiles ms')
+      | none => bad
+    match kindTok, ints? rest with
+    | "add", some (kind :: valid :: l) =>
+      match parseRObj l with
+      | some o => one (.add kind.toNat (valid != 0) o)
+      | none => bad
+    | "upd", some (ko :: kn :: valid :: l) =>
+      if l.length ≠ 42 then bad else
+      match parseRObj (l.take 21), parseRObj (l.drop 21) with
+      | some o, some n => one (.upd ko.toNat kn.toNat (valid != 0) o n)
+      | _, _ => bad
+    | "del", some (kind :: l) =>
+      match parseRObj l with
+      | some o => one (.del kind.toNat o)
+      | none => bad
+    | _, _ => bad
   | "mhadd" :: rest =>
     match (ints? rest).bind parseHPod with
     | some hp => all (fun c => podUpdate c none hp)
